@@ -102,3 +102,41 @@ package channel
 //@   ensures #returns-exactly-what-it-consumed result.1 == nil ==> rd == old(rd) ++ result.0
 //@   ensures #success-means-echo-seen result.1 == nil ==> contains(window(result.0, (2 * len(b) > c.PromptSearchDepth ? 2 * len(b) : c.PromptSearchDepth)), b)
 //@   loop 1 invariant RI(c.Q) && rd == old(rd) ++ rb
+
+// ---- C05: timeout selection -------------------------------------------------------------------------------------
+// from the statement: the per-operation timeout, when given, takes precedence; zero means the maximum
+//@ func (*Channel).GetTimeout [C05]
+//@   pure
+//@   ensures #per-operation-wins t != -1 && t != 0 ==> result == t
+//@   ensures #default-is-connection-wide t == -1 ==> result == c.TimeoutOps
+//@   ensures #zero-is-maximum t == 0 ==> result == 86400 * 1000000000
+
+// ---- C01 / C05 / C06 / C12: one command exchange --------------------------------------------------------------------
+// echoed: ghost output of the echo read - the input whose echo was seen by the last successful read-until-input
+//@ ghost echoed []byte
+
+//@ func dyn:channel.(*Channel).SendInputB$1:readUntilF
+//@   trusted
+//@   modifies rd, c.Q.queue, c.Q.depth, echoed
+//@   requires RI(c.Q) && c.PromptSearchDepth >= 0
+//@   ensures RI(c.Q)
+//@   ensures result.1 == nil ==> echoed == arg1
+//@   ensures result.1 != nil ==> len(result.0) == 0
+
+// every value sent on cr is a non-nil result; a result without error carries the processed prompt read and
+// was produced after exactly input, then one return, were written
+//@ func (*Channel).SendInputB [C01 C05 C06]
+//@   requires RI(c.Q) && c.PromptSearchDepth >= 0
+//@   modifies wire, rd, c.Q.queue, c.Q.depth, echoed, optlog, alloc()
+//@   chaninv cr v => v != nil && (v.err == nil ==> wire == old(wire) ++ input ++ c.ReturnChar)
+//@   at call WithTimeout#1 assert #operation-timeout-threaded arg1 == (op.Timeout == -1 ? c.TimeoutOps : (op.Timeout == 0 ? 86400 * 1000000000 : op.Timeout))
+//@   ensures #nil-payload-on-error result.1 != nil ==> len(result.0) == 0
+//@   ensures #sent-input-then-one-return result.1 == nil ==> wire == old(wire) ++ input ++ c.ReturnChar
+//@   at return assert #timeout-class result.1 != nil && r != nil && isErr(r.err, context.DeadlineExceeded) ==> isErr(result.1, util.ErrTimeoutError)
+
+//@ chanmode (*Channel).SendInputB$1:cr count
+//@ func (*Channel).SendInputB$1 [C01 C05 C06 C12]
+//@   requires RI(c.Q) && c.PromptSearchDepth >= 0
+//@   modifies wire, rd, c.Q.queue, c.Q.depth, echoed, err, alloc()
+//@   ensures #exactly-one-result chlen(cr) == old(chlen(cr)) + 1
+//@   at call WriteReturn#1 assert #return-only-after-echo echoed == input && wire == old(wire) ++ input
